@@ -66,6 +66,8 @@ class Ast:
         file, ln = body["span"].split(":")[0], int(body["span"].split(":")[1])
         name = body["id"].split("::")[-1]
         cands = [x for x in self.fns if x["rel"] == file and x["name"] == name]
+        if not cands and name in getattr(self, "renames", {}):
+            cands = [x for x in self.fns if x["rel"] == file and x["name"] == self.renames[name]]
         if not cands:
             return None
         cands.sort(key=lambda x: abs(x["line"] - ln))
@@ -74,7 +76,11 @@ class Ast:
         return cands[0]
 
     def find(self, rel, name):
-        return [x for x in self.fns if x["rel"] == rel and x["name"] == name]
+        r = [x for x in self.fns if x["rel"] == rel and x["name"] == name]
+        if not r and name in getattr(self, "renames", {}):
+            # the function was renamed (facts.Facts._apply_renames re-identified it): look for the new name
+            r = [x for x in self.fns if x["rel"] == rel and x["name"] == self.renames[name]]
+        return r
 
 
 class Join:
@@ -516,7 +522,9 @@ def get_adj(f, vocab=None):
     if key not in _cache:
         ws, delim = reader_classes(f)
         crate_files = {b["_file"] for b in f.bodies.values()}
-        _cache[key] = Adj(f, Ast(only=crate_files), ws, delim, vocab)
+        ast = Ast(only=crate_files)
+        ast.renames = {o.split("::")[-1]: n.split("::")[-1] for o, n in getattr(f, "renamed", {}).items()}
+        _cache[key] = Adj(f, ast, ws, delim, vocab)
     return _cache[key]
 
 
